@@ -173,7 +173,7 @@ def gen_pass(rng, max_frames=60, names_pool=None):
     while len(pool) < nch:
         pool.append('C%03d' % len(pool))
     names = pool[:nch]
-    frames = rng.wpick([(1, 1), (2, rng.randrange(2, 5)), (5, rng.randrange(3, max_frames + 1))])
+    frames = rng.wpick([(1, 1), (2, rng.randrange(2, 5)), (5, rng.randrange(min(3, max_frames), max_frames + 1))])
     block = rng.wpick([(4, 16), (2, rng.randrange(1, 9)), (2, rng.randrange(1, 40))])
     up = rng.chance(0.5)
     sp = rng.pick([0.25, 0.5, 0.125, 1.0, 0.1, 2.0, 0.0625])
